@@ -14,7 +14,12 @@ import re
 import vlib
 
 PROP = "C13"
-PATHS = ["a.mamba", "d/b.mamba", "d/e/c.mamba", "d.mamba", "d/y.mamba", "d-x/b.mamba"]     # = Paths of spec/Project.tla
+PATHS = ["a.mamba", "d/b.mamba", "d/e.mamba.d/c.mamba.mamba", "d.mamba", "d/y.mamba", "d-x/b.mamba"]     # = Paths of spec/Project.tla
+
+
+def py_of(path):
+    """the expected output path: only the final extension changes"""
+    return path[:-len(".mamba")] + ".py"
 FAULT = {"lex": "def q := 1 ! 2\n", "syntax": "def := 1\n", "type": "def q: Int := \"s\"\n"}
 ARROW = re.compile(r"──→ ([^\s:]+)")
 
@@ -62,7 +67,7 @@ def observe(vh, cases, annotate):
         rec = {"id": c["id"], "files": files, "perms": perms, "extra": extra, "annotate": annotate}
         if c["id"] % 2 == 1:
             # an already populated output directory: every target file exists with LONGER stale content
-            rec["pre"] = [{"path": f["path"].replace(".mamba", ".py"), "src": STALE} for f in files]
+            rec["pre"] = [{"path": py_of(f["path"]), "src": STALE} for f in files]
         recs.append(rec)
     results, dead = vlib.run_vh_isolated(vh, ["project"], recs, chunk=300, timeout=300)
     obs = []
@@ -91,7 +96,7 @@ def observe(vh, cases, annotate):
             ident = o["perms"][0]
             bypath = {}
             for k, fi in enumerate(ident["order"]):
-                bypath[PATHS[c["files"][fi]["path"] - 1].replace(".mamba", ".py")] = ident["out"][k].replace("\r\n", "\n")
+                bypath[py_of(PATHS[c["files"][fi]["path"] - 1])] = ident["out"][k].replace("\r\n", "\n")
             written = [sha(bypath[p]) for p in sorted(bypath)]
         panic = any(r.get("panic") for r in o["runs"]) or any(p.get("panic") for p in o["perms"])
         obs.append({"id": c["id"], "files": c["files"], "panic": bool(panic), "run1": run_rec(o["runs"][0]), "run2": run_rec(o["runs"][1]),
